@@ -5,7 +5,7 @@ import copy
 import itertools
 import json
 
-from ..coqlit import Err, Ok, clist, copt, cpair, cstr, cz
+from ..coqlit import Err, Ok, clist, cnat, copt, cpair, cstr, cz
 
 PROP = "C17"
 RUN = "Run_C17"
@@ -17,7 +17,9 @@ RULE = ("item dicts with <=4 keys and value lists of length 0..3 (ints/strs/tupl
         "dims=None / every kind of grouping (ordered set partitions, str and 1-tuple singletons, permuted strs, "
         "subsets) / malformed dims, optional constants, table-driven derivers and exclude predicates; pairs and "
         "triples for product and + / MultiSweep (nested), filtered_sweep for key subsets, count_sweep on small "
-        "pipelines; thorough adds the exhaustive enumeration for <=3 keys and lengths <=2; non-trivial = at least "
+        "pipelines, sequences of 2-3 operations (product / + / filtered_sweep / add_derivers) on 2-3 SHARED sweep "
+        "objects with every object re-listed after every step; thorough adds the exhaustive enumeration for <=3 keys "
+        "and lengths <=2; non-trivial = at least "
         "two keys or more than one sweep involved; distinct by the whole case")
 ASSUMPTIONS = ["user callables (derivers, exclude) are structural functions of the combination dict; values are ints, "
                "strs and tuples (hashable, compared by ==)",
@@ -108,7 +110,21 @@ def emit_case(c) -> str:
         return f"(CFilterM {cmexpr(c['e'])} {cstrs(c['keys'])})"
     if k == "count":
         return f"(CCount {crs(c['r'])} {clist([cpair(cstr(d), cstrs(a)) for d, a in c['deps']])})"
+    if k == "seq":
+        return f"(CSeq {clist([crs(r) for r in c['base']])} {clist([csop(o) for o in c['ops']])})"
     raise ValueError(k)
+
+
+def csop(o) -> str:
+    if o[0] == "product":
+        return f"(OProduct {cnat(o[1])} {clist([cnat(j) for j in o[2]])})"
+    if o[0] == "add":
+        return f"(OAdd {cnat(o[1])} {cnat(o[2])})"
+    if o[0] == "filter":
+        return f"(OFilter {cnat(o[1])} {cstrs(o[2])})"
+    if o[0] == "addder":
+        return f"(OAddDer {cnat(o[1])} {clist([cpair(cstr(a), cdexpr(d)) for a, d in o[2]])})"
+    raise ValueError(o)
 
 
 # ------------------------------------------------------------------ implementation driver
@@ -191,6 +207,58 @@ def _obs(s):
     return [_res(lst), _res(lambda: len(s))]
 
 
+def _cyclic(o, path=()):
+    """A MultiSweep that (transitively) contains itself."""
+    from pipefunc.sweep import MultiSweep
+
+    if not isinstance(o, MultiSweep):
+        return False
+    if id(o) in path:
+        return True
+    return any(_cyclic(m, (*path, id(o))) for m in o.sweeps)
+
+
+def run_seq(c):
+    """Operations on SHARED objects; after every step list()/len() of every object that exists is observed again."""
+    from pipefunc.sweep import MultiSweep
+
+    objs = [mk_sweep(r) for r in c["base"]]
+
+    def snap():
+        return [_obs(o) for o in objs]
+
+    out = [snap()]
+    for op in c["ops"]:
+        kind = op[0]
+        idx = [op[1], *op[2]] if kind == "product" else ([op[1], op[2]] if kind == "add" else [op[1]])
+        marker = "ok"
+        new = None
+        if any(i >= len(objs) for i in idx):
+            marker = "bad-case"
+        elif kind in ("product", "addder") and any(isinstance(objs[i], MultiSweep) for i in idx):
+            marker = "bad-case"  # Sweep.product / add_derivers are not meaningful on a MultiSweep
+        elif kind == "filter" and _cyclic(objs[op[1]]):
+            marker = "bad-case"
+        else:
+            try:
+                if kind == "product":
+                    new = objs[op[1]].product(*[objs[j] for j in op[2]])
+                elif kind == "add":
+                    new = objs[op[1]] + objs[op[2]]
+                elif kind == "filter":
+                    new = objs[op[1]].filtered_sweep(list(op[2]))
+                elif kind == "addder":
+                    new = objs[op[1]].add_derivers(**{a: mk_d(d) for a, d in op[2]})
+                else:
+                    raise ValueError(kind)
+            except Exception as e:  # noqa: BLE001
+                marker = Err(e)
+        if marker == "ok":
+            objs.append(new)
+        out.append([marker, snap()])
+    return out
+
+
 def mk_pipeline(funcs):
     from pipefunc import PipeFunc, Pipeline
 
@@ -228,6 +296,8 @@ def run_impl(c):
     if k == "filterm":
         m = mk_m(c["e"])
         return _res(lambda: _obs(m.filtered_sweep(list(c["keys"]))))
+    if k == "seq":
+        return run_seq(c)
     if k == "count":
         s = mk_sweep(c["r"])
         p = mk_pipeline(c["funcs"])
@@ -532,7 +602,109 @@ def rename(r, suffix):
     return r
 
 
+def gen_seq(rng):
+    """2-3 operations on three shared sweeps (disjoint key pools); products avoid the regions of the known findings."""
+    nb = rng.choice([2, 3, 3])
+    ps = pools(nb)
+    rich = rng.random() < 0.5
+    base = []
+    for i in range(nb):
+        for _ in range(50):
+            r = gen_rsweep(rng, ps[i], tag=f"_{i}", maxkeys=2,
+                           mode=rng.choice(["none", "none", "partition", "singletons"]))
+            if r["items"] and all(v for _, v in r["items"]) and n_base(r) <= 3:
+                break
+        else:
+            r = {"items": [[ps[i][0], [1, 2]]], "dims": None, "excl": None, "consts": None, "ders": None}
+        if rich:
+            if not r["consts"]:
+                r["consts"] = [[f"k0_{i}", copy.deepcopy(rng.choice(VALS))]]
+            if not r["ders"] and rng.random() < 0.7:
+                r["ders"] = [[f"d0_{i}", ["sub", "t0", [r["items"][0][0]]]]]
+        base.append(r)
+    # generator-side picture of the objects (optimistic: every operation is assumed to succeed)
+    objs = [{"multi": False, "members": []} for _ in base]
+    slots = [{"obj": i, "multi": False, "bases": {i}, "dims_none": base[i]["dims"] is None, "prod": True}
+             for i in range(nb)]
+
+    def reach(o, acc):
+        for m in objs[o]["members"]:
+            if m not in acc:
+                acc.add(m)
+                reach(m, acc)
+        return acc
+
+    ops = []
+    for _ in range(rng.choice([2, 3, 3])):
+        x = rng.random()
+        cand = [i for i, sl in enumerate(slots) if sl["prod"] and not sl["multi"]]
+        if x < 0.45 and len(cand) >= 2:
+            i = rng.choice(cand)
+            others = [j for j in cand if j != i and (rng.random() < 0.08 or not (slots[j]["bases"] & slots[i]["bases"]))]
+            rng.shuffle(others)
+            js, used = [], set(slots[i]["bases"])
+            for j in others[: rng.choice([1, 1, 2])]:
+                if not (slots[j]["bases"] & used) or rng.random() < 0.08:
+                    js.append(j)
+                    used |= slots[j]["bases"]
+            if not js:
+                continue
+            order = [i, *js]
+            if slots[order[0]]["dims_none"] and any(not slots[j]["dims_none"] for j in order):
+                k = next(j for j in order if not slots[j]["dims_none"])
+                order.remove(k)
+                order.insert(0, k)
+            ops.append(["product", order[0], order[1:]])
+            objs.append({"multi": False, "members": []})
+            slots.append({"obj": len(objs) - 1, "multi": False, "bases": used,
+                          "dims_none": slots[order[0]]["dims_none"], "prod": True})
+        elif x < 0.70:
+            i, j = rng.randrange(len(slots)), rng.randrange(len(slots))
+            a, b = slots[i]["obj"], slots[j]["obj"]
+            if objs[a]["multi"]:
+                add = list(objs[b]["members"]) if objs[b]["multi"] else [b]
+                if any(a == m or a in reach(m, set()) for m in add):
+                    continue  # would make the MultiSweep contain itself
+                objs[a]["members"] += add
+                ops.append(["add", i, j])
+                slots.append(dict(slots[i]))
+            else:
+                ops.append(["add", i, j])
+                objs.append({"multi": True, "members": [a, b]})
+                slots.append({"obj": len(objs) - 1, "multi": True, "bases": slots[i]["bases"] | slots[j]["bases"],
+                              "dims_none": True, "prod": False})
+        elif x < 0.85:
+            i = rng.randrange(len(slots))
+            ck = [k for b in sorted(slots[i]["bases"]) for k in combo_key_list(base[b])]
+            keys = rng.sample(ck, rng.randint(1, min(2, len(ck)))) if ck else ["zz"]
+            ops.append(["filter", i, keys])
+            objs.append({"multi": slots[i]["multi"], "members": []})
+            slots.append({"obj": len(objs) - 1, "multi": slots[i]["multi"], "bases": slots[i]["bases"],
+                          "dims_none": False, "prod": False})
+        elif cand:
+            i = rng.choice(cand)
+            b0 = base[min(slots[i]["bases"])]
+            ops.append(["addder", i, [[f"z{len(ops)}", ["sub", "t9", [b0["items"][0][0]]]]]])
+            objs.append({"multi": False, "members": []})
+            slots.append({"obj": len(objs) - 1, "multi": False, "bases": slots[i]["bases"],
+                          "dims_none": slots[i]["dims_none"], "prod": True})
+    return {"kind": "seq", "base": base, "ops": ops}
+
+
+_S = lambda k, v, **kw: {"items": [[k, v]], "dims": None, "excl": None, "consts": kw.get("consts"),  # noqa: E731
+                         "ders": kw.get("ders")}
+
 CORNERS = [
+    # shared operands: a second / a triple product after a first one, everything listed again (constants, derivers)
+    {"kind": "seq", "base": [_S("a", [1, 2], consts=[["x", 10]]), _S("b", [3, 4], consts=[["y", 20]]),
+                             _S("c", [5], consts=[["z", 30]])],
+     "ops": [["product", 0, [1]], ["product", 0, [2]], ["product", 0, [1, 2]]]},
+    {"kind": "seq", "base": [_S("a", [1, 2], ders=[["x", ["sub", "t", ["a"]]]]),
+                             _S("b", [3, 4], ders=[["y", ["sub", "t", ["b"]]]])],
+     "ops": [["product", 0, [1]], ["product", 1, [0]]]},
+    {"kind": "seq", "base": [_S("a", [1]), _S("b", [2]), _S("c", [3])],
+     "ops": [["add", 0, 1], ["add", 3, 2], ["filter", 3, ["a"]]]},
+
     {"kind": "sweep", "r": {"items": [], "dims": None, "excl": None, "consts": None, "ders": None}},
     {"kind": "sweep", "r": {"items": [], "dims": None, "excl": None, "consts": [["k", 1]], "ders": None}},
     {"kind": "sweep", "r": {"items": [], "dims": [], "excl": ["has", "a"], "consts": None, "ders": None}},
@@ -608,6 +780,10 @@ def generate(rng, tier, mult):
             cases.append({"kind": "filterm", "e": e, "keys": gen_keys(rng, lv[0]) if lv else ["a"]})
         if rng.random() < 0.5:
             cases.append(gen_count(rng))
+        for _ in range(2):
+            sq = gen_seq(rng)
+            if sq["ops"]:
+                cases.append(sq)
     for c in cases:
         if c["kind"] == "product" and c["r"] is None:
             c["r"], c["others"] = c["others"][0], c["others"][1:]
@@ -639,6 +815,8 @@ def _sweeps_of(c):
         return [c["r"]]
     if k == "product":
         return [c["r"], *c["others"]]
+    if k == "seq":
+        return list(c["base"])
     return _leaves(c["e"])
 
 
@@ -658,6 +836,9 @@ def distribution(c):
         d["dims0"] = "none" if r["dims"] is None else ("zip" if any(isinstance(g, list) and len(g) > 1
                                                                      for g in r["dims"]) else "flat")
         d["extras0"] = "".join(x[0] for x in ("excl", "consts", "ders") if r[x] is not None) or "-"
+    if c["kind"] == "seq":
+        d["seq_ops"] = ",".join(o[0] for o in c["ops"])
+        d["seq_shared_extras"] = "%dc%dd" % (sum(1 for r in sw if r["consts"]), sum(1 for r in sw if r["ders"]))
     return d
 
 
@@ -671,8 +852,46 @@ def _impl_list(impl_obs):
     return None
 
 
+def _seq_finding(c, impl_obs):
+    """Replays the slot bookkeeping of a sequence and names the first operation that lies in a known-finding region."""
+    slots = [{"multi": False, "dims_none": r["dims"] is None, "empty": not r["items"], "base": r} for r in c["base"]]
+    for n, op in enumerate(c["ops"]):
+        try:
+            ok = impl_obs[n + 1][0] == "ok"
+        except (IndexError, TypeError):
+            return None
+        if not ok:
+            continue
+        kind = op[0]
+        idx = [op[1], *op[2]] if kind == "product" else ([op[1], op[2]] if kind == "add" else [op[1]])
+        if any(i >= len(slots) for i in idx):
+            return None
+        if kind == "add":
+            if slots[op[1]]["multi"]:
+                return "multisweep-add-mutates-left"
+            slots.append({"multi": True, "dims_none": True, "empty": False, "base": None})
+        elif kind == "product":
+            sl = [slots[i] for i in idx]
+            if any(s["empty"] for s in sl):
+                return "product-empty-operand-neutral"
+            if sl[0]["dims_none"] and any(not s["dims_none"] for s in sl[1:]):
+                return "product-loses-zip"
+            slots.append({"multi": False, "dims_none": sl[0]["dims_none"], "empty": False, "base": None})
+        elif kind == "filter":
+            b = slots[op[1]]["base"]
+            if b is not None and b["ders"] is None and any(len(v) == 0 for _, v in b["items"]):
+                return "filtered-ignores-empty-dimension"
+            slots.append({"multi": slots[op[1]]["multi"], "dims_none": False, "empty": False, "base": None})
+        else:
+            s0 = slots[op[1]]
+            slots.append({"multi": False, "dims_none": s0["dims_none"], "empty": s0["empty"], "base": None})
+    return None
+
+
 def finding_id(c, impl_obs, kind):
     k = c["kind"]
+    if k == "seq":
+        return _seq_finding(c, impl_obs)
     lst = _impl_list(impl_obs)
     if k == "product" and lst is not None:
         ops = [c["r"], *c["others"]]
@@ -742,6 +961,17 @@ def shrink(c):
                 d = copy.deepcopy(c)
                 d["others"][i] = r
                 out.append(d)
+    if k == "seq":
+        if len(c["ops"]) > 1:
+            d = copy.deepcopy(c)
+            d["ops"].pop()
+            out.append(d)
+        for i, r in enumerate(c["base"]):
+            for part in ("excl", "consts", "ders"):
+                if r[part] is not None:
+                    d = copy.deepcopy(c)
+                    d["base"][i][part] = None
+                    out.append(d)
     if k in ("filter", "filterm") and len(c["keys"]) > 1:
         for i in range(len(c["keys"])):
             d = copy.deepcopy(c)
